@@ -391,6 +391,28 @@ def judge_run(res, cfg, length):
         problem = ("exception", "run() raised %s" % type(e).__name__)
     if problem is None and got != expected:
         problem = ("results-differ", got)
+    if problem is None:
+        # a second flow through the same adapter object: run() cuts *that* flow into blocks, so the
+        # adapter itself carries nothing from one finished run to the next (what the wrapped element
+        # keeps is its own business): a new adapter around an equally used element must give the same
+        try:
+            fr_a, _ = build_fr(cfg)
+            fr_b, _ = build_fr(cfg)
+            list(fr_a.run(iter(M.flow_values(kind, length))))
+            list(fr_b.run(iter(M.flow_values(kind, length))))
+            second = M.flow_values(kind, 2 * n + 1)
+            with step_budget(run_limit(2 * n + 1)):
+                got_a = list(fr_a.run(iter(second)))
+            fresh_adapter = lena.core.FillRequest(fr_b._el, **_kw(cfg))
+            got_b = list(fresh_adapter.run(iter(M.flow_values(kind, 2 * n + 1))))
+            res.count("second_runs_compared")
+            if got_a != got_b:
+                problem = ("second-run-differs-from-new-adapter", {"second_run": got_a, "new_adapter": got_b})
+                expected = got_b
+        except StepBudgetExceeded:
+            problem = ("call-does-not-return", "second run() exceeded the step budget")
+        except Exception as e:  # noqa
+            problem = ("exception", "second run() raised %s" % type(e).__name__)
     res.case(nontrivial=length > n, outcome=(kind, n, cfg["reset"], repr(got)))
     if length > n:
         res.sample(case, 2)
